@@ -25,7 +25,10 @@ EXPLANATION = (
     "segment ends -- is a count of the loop iterations over the fiber's "
     "elements: a counter set to 0 before the loop and incremented by one, "
     "unconditionally, once per iteration (or the length of a list appended to "
-    "in that way).")
+    "in that way); (R5) getSize of each format is the sum of exactly the word "
+    "counts its layout stores: len(coords) for C, ceil(len(coords) / "
+    "bits_per_word) mask words for B (a recognised ceiling-division idiom), "
+    "len(occupancies), len(payloads).")
 RULE = "one obligation per format x clause"
 
 FORMATS = {"U": "Uncompressed", "C": "CoordinateList", "B": "Bitvector"}
@@ -36,6 +39,7 @@ def run(ctx):
     ctx.guard(r2_registry)
     ctx.guard(r3_keys)
     ctx.guard(r4_occupancy)
+    ctx.guard(r5_sizes)
 
 
 def _cls(ctx, name):
@@ -273,3 +277,88 @@ def r4_occupancy(ctx):
                         "above accumulates it into its segment ends, so the "
                         "arrays no longer decode by layout" % (cname, why),
                         text_="%s occupancy" % cname)
+
+
+# -- R5: reported size = words the layout stores ------------------------------
+
+def _ceil_div(e):
+    """(numerator text, denominator text) if `e` is a ceiling division:
+    math.ceil(a / b), -(-a // b), (a + b - 1) // b."""
+    nt = lambda x: text(x).replace(" ", "")
+    if isinstance(e, ast.Call) and text(e.func) in ("math.ceil", "ceil") and \
+            len(e.args) == 1 and isinstance(e.args[0], ast.BinOp) and \
+            isinstance(e.args[0].op, ast.Div):
+        return nt(e.args[0].left), nt(e.args[0].right)
+    if isinstance(e, ast.UnaryOp) and isinstance(e.op, ast.USub) and \
+            isinstance(e.operand, ast.BinOp) and isinstance(e.operand.op, ast.FloorDiv) \
+            and isinstance(e.operand.left, ast.UnaryOp) and \
+            isinstance(e.operand.left.op, ast.USub):
+        return nt(e.operand.left.operand), nt(e.operand.right)
+    if isinstance(e, ast.BinOp) and isinstance(e.op, ast.FloorDiv) and \
+            isinstance(e.left, ast.BinOp) and isinstance(e.left.op, ast.Sub) and \
+            nt(e.left.right) == "1" and isinstance(e.left.left, ast.BinOp) and \
+            isinstance(e.left.left.op, ast.Add):
+        a, b = nt(e.left.left.left), nt(e.left.left.right)
+        d = nt(e.right)
+        if b == d:
+            return a, d
+        if a == d:
+            return b, d
+    return None
+
+
+def _terms(ctx, f, e, depth=0):
+    if isinstance(e, ast.BinOp) and isinstance(e.op, ast.Add):
+        return _terms(ctx, f, e.left, depth) + _terms(ctx, f, e.right, depth)
+    if isinstance(e, ast.Name) and depth < 3:
+        v = pat.single_def(ctx, f, e)
+        if v is not None:
+            return _terms(ctx, f, v, depth + 1)
+    return [e]
+
+
+def r5_sizes(ctx):
+    want = {"U": {"len(self.occupancies)", "len(self.payloads)"},
+            "C": {"len(self.coords)", "len(self.occupancies)", "len(self.payloads)"},
+            "B": {"CEIL(len(self.coords),self.bits_per_word)",
+                  "len(self.occupancies)", "len(self.payloads)"}}
+    for d, cname in FORMATS.items():
+        ci = _cls(ctx, cname)
+        f = ci.methods.get("getSize")
+        if f is None:
+            continue
+        rets = pat.returns(f)
+        ctx.require(len(rets) == 1 and isinstance(rets[0].value, ast.Name),
+                    "C20.R5: %s.getSize does not return one accumulated variable" % cname)
+        var = rets[0].value.id
+        terms = []
+        for n in f.own_nodes():
+            if isinstance(n, ast.Assign) and text(n.targets[0]) == var:
+                terms += _terms(ctx, f, n.value)
+            elif isinstance(n, ast.AugAssign) and text(n.target) == var:
+                if not isinstance(n.op, ast.Add):
+                    terms.append(n)
+                else:
+                    terms += _terms(ctx, f, n.value)
+        got = set()
+        odd = []
+        for t in terms:
+            cd = _ceil_div(t) if isinstance(t, ast.expr) else None
+            if cd:
+                got.add("CEIL(%s,%s)" % cd)
+            else:
+                tt = text(t).replace(" ", "")
+                got.add(tt)
+                if tt not in want[d]:
+                    odd.append(text(t))
+        if got == want[d]:
+            ctx.ok("C20.R5", f, rets[0], "%s.getSize sums %s" % (cname, sorted(got)),
+                   text_="%s size terms" % cname)
+        else:
+            ctx.bad("C20.R5", f, rets[0], "%s.getSize sums %s; the %s layout "
+                    "stores %s%s" % (cname, sorted(got), d, sorted(want[d]),
+                                     " -- `%s` is not the number of words of that "
+                                     "array (mask words are the ceiling of bits / "
+                                     "bits_per_word: an exact multiple must not "
+                                     "count an extra word)" % odd[0] if odd else ""),
+                    text_="%s size terms" % cname)
